@@ -53,6 +53,7 @@ import CtyModel.Lemmas.d15Implied
 import CtyModel.Lemmas.d15Mirror
 import CtyModel.Lemmas.d15Emit
 import CtyModel.Lemmas.d15DocU
+import CtyModel.Lemmas.d15Reject
 import CtyModel.Lemmas.JsonValStrip
 import CtyModel.Lemmas.JsonValNoOpt
 import CtyModel.Lemmas.JsonValReject
@@ -356,6 +357,34 @@ example :
     wf t = true ∧ wf v.ty = true ∧ hasCapsule v.ty = false ∧ setFree v.ty = true ∧
     «matches» t v.ty = true ∧ wfP v.ty v.v = true ∧ v.v.containsMarked = true ∧
     v.v.whollyKnown = false ∧ hasInf v.v = true := by decide
+
+/-- The same WITHOUT the set-free side condition (audit C15 item 3): sets anywhere in the value.
+The set branch of `marshal` adds only the iteration order, which goes through the hash
+oracle; `htot` says the oracle answers for every member — the real `Value.Hash` is total, and
+the harness supplies its answers — and then the refusal of a value holding a mark, an unknown
+or an infinity is still an error, never a panic.  (Capsule-free stays: a capsule's payload
+goes through `encoding/json` reflection, which is not modelled.) -/
+theorem rejects_unknown_marked_with_sets (env : JEnv) (htot : ∀ t p, (env.hkey t p).isSome = true)
+    (v : Value) (t : Ty) (hwt : wf t = true) (hwv : wf v.ty = true) (hcaps : hasCapsule v.ty = false)
+    (hconf : «matches» t v.ty = true) (hwf : wfP v.ty v.v = true)
+    (h : v.v.containsMarked = true ∨ v.v.whollyKnown = false ∨ hasInf v.v = true) :
+    ∃ c, marshal env v t = .err c := by
+  rcases okErrS_marshal env htot v t ⟨hwt, hwv, hcaps, hconf, hwf⟩ with ⟨j, hj⟩ | hc
+  · exact absurd hj (noOk_marshal env v t h j)
+  · exact hc
+
+/-- a total oracle for instances -/
+def envTot : JEnv := { norm := id, hkey := fun _ _ => some (0, "h") }
+
+/-- satisfiable with a set: an infinity and an unknown inside a set of numbers inside a tuple,
+against a constraint with a placeholder; and the encoder's answer is the error -/
+example :
+    let v : Value := ⟨.tuple [.set .number, .string], .seq [.sset [0, 0] [.n (.inf false), .unk .unref], .s "a"]⟩
+    let t : Ty := .tuple [.dyn, .string]
+    (∀ t p, (envTot.hkey t p).isSome = true) ∧ wf t = true ∧ wf v.ty = true ∧ hasCapsule v.ty = false ∧
+    setFree v.ty = false ∧ «matches» t v.ty = true ∧ wfP v.ty v.v = true ∧ v.v.whollyKnown = false ∧
+    hasInf v.v = true ∧ (∃ c, marshal envTot v t = .err c) :=
+  ⟨fun _ _ => rfl, by decide, by decide, by decide, by decide, by decide, by decide, by decide, by decide, ⟨_, rfl⟩⟩
 
 /-! ## Documents -/
 
